@@ -185,7 +185,8 @@ class Transportation1dSorter {
   /**
    * Convert back an assignment given by the solver through preprocessing
    */
-  std::vector<int> convertAssignmentBack(const std::vector<int> &a) const;
+  std::vector<int> convertAssignmentBack(const std::vector<int> &a,
+                                         int nbSources) const;
 
  private:
   std::vector<int> srcOrder;
